@@ -383,11 +383,25 @@ pub fn run_cli(dir: &Path, name: &str, source: &[u8], spec: &CompressSpec, inj: 
         run.delays.push(format!("2,{},{},r", inj.seed ^ 0x22, inj.input_read_delay_us));
     }
     run.workers = inj.workers;
+    // One `-i FILE` case in six names a pipe instead of a regular file: what the path is
+    // (its stat size, whether it can be seeked) must not matter, only the bytes it delivers.
+    let mut feeder = None;
+    if spec.stdin.is_none() && inj.seed % 6 == 1 {
+        if let Some(i) = run.args.iter().position(|a| a == "-i" || a == "--input") {
+            if let Some(f) = scn::FifoFeeder::start(dir.join(format!("{}.src.fifo", name)), source.to_vec()) {
+                run.args[i + 1] = proc::p(&f.path);
+                feeder = Some(f);
+            }
+        }
+    }
     if spec.buffered.is_none() && inj.seed % 5 == 2 {
         // default --buffered-chunks on a single-CPU machine
         run.one_cpu = Some(inj.seed as usize >> 4);
     }
     let o = proc::run(&run);
+    if let Some(f) = feeder {
+        f.finish();
+    }
     let archive = std::fs::read(&out_path).ok();
     let (fp, overlap) = fingerprint(&o.hooks);
     let (hand, tw) = handoff(&o, 1);
